@@ -129,6 +129,8 @@ class Analysis:
         self.inv_info = {}
         self._contains = {}
         self.logf = log
+        self.growth = {}
+        self.cur_ts = None
         self.t_inv = 0.0
 
     # ------------------------------------------------------------------ typestate plumbing
@@ -176,6 +178,7 @@ class Analysis:
         else:
             keyfn = TS.single_key_fn
         inv = TS.Invariant(ip, tname, keyfn)
+        inv.round_hook = lambda: self.growth.pop(tname, None)    # what remains is the verdict of the last round (the final invariant)
         self.invs[tname] = inv   # (recursive uses see the partial invariant)
         iface, helpers = self.ts_methods(tname)
         if not iface:
@@ -185,7 +188,7 @@ class Analysis:
             if c not in self.f.bodies:
                 raise AnchorMissing("constructor %s not found" % c)
             ctors.append(self.ctor_runner(self.f.bodies[c]))
-        runs = [self.method_runner(b) for b in iface]
+        runs = [self.method_runner(b, tname) for b in iface]
         rounds = TS.infer(ip, inv, ctors, runs, log=self.logf)
         self.inv_info[tname] = {
             "rounds": rounds, "partitions": inv.describe(),
@@ -200,17 +203,53 @@ class Analysis:
             return [(s, v) for (s, v, _a) in self.run_fn(body)]
         return run
 
-    def method_runner(self, body):
+    def method_runner(self, body, tname=None):
         def run(st, obj):
             root = self.ip.new_oid("self")
             st.mem[root] = obj
             res = []
             a0ty = body["locals"][1]["ty"]
             self_arg = VRef(root, (), a0ty.get("mut", False))
+            pre_syms = TS.value_syms(st, [obj])
+            bad = []
             for (s2, _v, _a) in self.run_fn(body, st0=st, first_arg=self_arg):
                 res.append((s2, s2.mem[root]))
+                bad.extend(self.growth_of(s2, s2.mem[root], pre_syms))
+            # (overwritten in every round of the inference: what remains is the verdict on the final invariant)
+            if bad:
+                self.growth.setdefault(tname, []).append((body["def"], bad[:4]))
             return res
         return run
+
+    def growth_of(self, st, obj, pre_syms, path=""):
+        """64-bit unsigned leaves of a stateful object after a method call that are neither small (<= 2^32) nor `one leaf of the
+        object before the call + at most 2^16` (side condition of the A3 bound on counters, join.COUNTER_MAX)"""
+        out = []
+        if isinstance(obj, VInt):
+            if obj.w == 64 and not obj.sg:
+                lo, hi = st.interval(obj.lin)
+                if hi is not None and hi <= (1 << 48):
+                    return out
+                # bounded by a leaf of the object before the call (+ 2^16), or by a const generic parameter (a capacity)
+                ok = False
+                for x in sorted(pre_syms | set(self.ip.cparams.values())):
+                    if st.prove_ge0(Lin.sym(x) + (1 << 16) - obj.lin):
+                        ok = True
+                        break
+                if not ok:
+                    out.append("%s = %s" % (path or "value", st.describe(obj.lin)))
+            return out
+        if isinstance(obj, VAgg):
+            for i, e in enumerate(obj.elems):
+                out.extend(self.growth_of(st, e, pre_syms, "%s.%d" % (path, i)))
+        elif isinstance(obj, VEnum):
+            for v, pay in obj.pay.items():
+                for i, e in enumerate(pay):
+                    out.extend(self.growth_of(st, e, pre_syms, "%s#%d.%d" % (path, v, i)))
+        elif isinstance(obj, VArr):
+            for i, e in enumerate(obj.elems[:8]):
+                out.extend(self.growth_of(st, e, pre_syms, "%s[%d]" % (path, i)))
+        return out
 
     def method_cases(self, tname, body, env=None):
         """run `body` (a method taking self: &mut/& T first) from every partition of T's invariant.
